@@ -129,6 +129,25 @@ theorem reused_layer_sites_tied (hl : computeLabels p = some l) (hws : wellShape
   unfold Coherent gm at h
   exact ⟨h.2.1, h.2.2.1⟩
 
+/-- **a depthwise layer invoked again**: the tensor it is applied to at the new call site, its
+output there, and its output where it is defined all carry the same alive features -/
+theorem reused_depthwise_sites_tied (hl : computeLabels p = some l) (hws : wellShaped p = true)
+    (hsup : supported p = true) (n s o ls : ℕ) (a : LAttr) (hn : n < p.length)
+    (hop : p[n] = .reuseDw s o ls a) :
+    (aliveMasks p l α).getD n [] = (aliveMasks p l α).getD s [] ∧
+    (aliveMasks p l α).getD n [] = (aliveMasks p l α).getD o [] := by
+  have h := coherent_of_bookkeeping (V := ℕ) ⟨fun _ _ _ v => v, fun _ _ => 0, fun _ _ v => v,
+    fun _ _ v => v, fun _ _ v => v, fun _ u v => u + v, fun _ _ v => v⟩ (fun n => List.replicate
+      (match p.getD n (.input 0) with | .input c => c | _ => 0) 0) p l α hl hws hsup
+    (by
+      intro k hk
+      unfold SemOK
+      cases hk' : p[k] <;> simp
+      simp [List.getD_eq_getElem?_getD, List.getElem?_eq_getElem hk, hk']) n hn
+  rw [hop] at h
+  unfold Coherent gm at h
+  exact ⟨h.2.1, h.2.2⟩
+
 /-- the number of input features a layer is exported with is the number of alive features of the
 tensor feeding it (what it reports and is charged for): the exported network is shape-consistent -/
 theorem exported_in_width (ms : List (List Bool)) (n : ℕ) :
